@@ -18,5 +18,6 @@ CONSTANTS
   UseReopen = FALSE
   UseEpochs = TRUE
   OccSet = {FALSE}
+  MinCleanSegs = 1
   UseReaders = TRUE
 CHECK_DEADLOCK FALSE
